@@ -3,6 +3,7 @@
 mod codec;
 mod conc;
 mod elgamal;
+mod pok;
 mod record;
 mod refeval;
 mod signcrypt;
@@ -36,6 +37,8 @@ fn run_vector(v: &Value, group: &str, conc: &Conc, tables: &Tables) -> signet::O
         ("TimeLock", "G2") => timelock::run::<Bls12381G2Impl, RefG2>(v, conc, tables),
         ("ElGamal", "G1") => elgamal::run::<Bls12381G1Impl, RefG1>(v, conc, tables),
         ("ElGamal", "G2") => elgamal::run::<Bls12381G2Impl, RefG2>(v, conc, tables),
+        ("Pok", "G1") => pok::run::<Bls12381G1Impl, RefG1>(v, conc, tables),
+        ("Pok", "G2") => pok::run::<Bls12381G2Impl, RefG2>(v, conc, tables),
         ("Threshold", "G1") => threshold::run::<Bls12381G1Impl, RefG1>(v, conc, tables),
         ("Threshold", "G2") => threshold::run::<Bls12381G2Impl, RefG2>(v, conc, tables),
         (s, g) => signet::Outcome::fail(json!({}), format!("no interpreter for spec {s} group {g}")),
